@@ -617,6 +617,7 @@ pub fn run(o: &Opts) -> Value {
     };
     let mut not_compared = 0usize;
     let mut wrapped_programs = 0usize;
+    let mut legacy_differs = 0usize;
     for c in &cases {
         if let Some(errs) = rejected.get(&c.k) {
             fail(c, format!("rustc rejects the printed program (not predicted by `inexpressible`): {}", errs.join(" | ")), Value::Null, Value::Null, &mut mismatches);
@@ -655,6 +656,9 @@ pub fn run(o: &Opts) -> Value {
             wrapped_programs += 1;
         }
         let interned = reserialise(&c.interned).expect("harness: interner output is a registry");
+        if reserialise(&reggen::build_legacy_identity(&c.program)).map(|l| l != derived).unwrap_or(true) {
+            legacy_differs += 1;
+        }
         if derived == interned {
             equal += 1;
             if c.dups > 0 {
@@ -672,6 +676,7 @@ pub fn run(o: &Opts) -> Value {
         "equal": equal,
         "equal_with_identity_duplicates": with_dups,
         "programs_with_wrapped_type_names": wrapped_programs,
+        "differ_from_the_interner_with_canon_identity": legacy_differs,
         "skipped": skipped,
         "rustc_rejected": rejected.len(),
         "not_compared": not_compared,
